@@ -31,7 +31,10 @@ func init() {
 		}
 		var loop *ast.RangeStmt
 		ast.Inspect(fd.Body, func(x ast.Node) bool {
-			if rs, ok := x.(*ast.RangeStmt); ok && loop == nil && r.Src(rs.X) == "subscribers" {
+			// the (only) range loop of the function — found by position, not by the variable's name, so that a
+			// rename of `subscribers` / `subQoS` does not break the fact (extension mqtt; the loop body is now also
+			// tied by translation, facts_c15_ir.go)
+			if rs, ok := x.(*ast.RangeStmt); ok && loop == nil {
 				loop = rs
 			}
 			return true
@@ -46,10 +49,27 @@ func init() {
 			ast.Inspect(loop.Body, func(x ast.Node) bool {
 				if is, ok := x.(*ast.IfStmt); ok && cmp == "" {
 					cmp = r.Src(is.Cond)
+					// canonical names for the loop's value variable and the function's last parameter
+					if be, ok := is.Cond.(*ast.BinaryExpr); ok {
+						lx, ok1 := be.X.(*ast.Ident)
+						ly, ok2 := be.Y.(*ast.Ident)
+						lv, ok3 := loop.Value.(*ast.Ident)
+						ps := fd.Type.Params.List
+						if ok1 && ok2 && ok3 && len(ps) > 0 && len(ps[len(ps)-1].Names) > 0 &&
+							lx.Name == lv.Name && ly.Name == ps[len(ps)-1].Names[len(ps[len(ps)-1].Names)-1].Name {
+							cmp = "subQoS " + be.Op.String() + " qos"
+						}
+					}
 				}
 				return true
 			})
-			publishes = r.CountCalls(loop.Body, "client.session.publish")
+			publishes = 0
+			ast.Inspect(loop.Body, func(x ast.Node) bool {
+				if ce, ok := x.(*ast.CallExpr); ok && strings.HasSuffix(r.Src(ce.Fun), ".session.publish") {
+					publishes++
+				}
+				return true
+			})
 		}
 		w.Line("/-- `sendMsgToClient`: inside `for clientID, subQoS := range subscribers`: number of `return`")
 		w.Line("statements (0 = no subscriber can end the fan-out), of `continue`s, the first condition, and the")
